@@ -8,7 +8,8 @@ object — and every chunk in flight afterwards is a chunk that was in flight be
 same fragment identity (`Chunk.frag`). No hypothesis on the configuration (unlike the `SameAcct` frames of the
 window proofs, nothing here needs `4·MTU < 2^32`).
 -/
-namespace SenderProofs
+namespace SenderTsn
+open SenderProofs
 open Gen Sender
 
 /-- what `packetize` reads of a stream object besides the byte counter -/
@@ -50,12 +51,12 @@ theorem SameQ.trans {a b c : St} (h1 : SameQ a b) (h2 : SameQ b c) : SameQ a c :
   ⟨h2.cfg.trans h1.cfg, h2.next.trans h1.next, h2.msg.trans h1.msg, h2.pen.trans h1.pen, h2.est.trans h1.est,
    fun si => (h2.str si).trans (h1.str si)⟩
 
-structure Quiet (s s' : St) : Prop where
+structure Still (s s' : St) : Prop where
   q : SameQ s s'
   k : InfK s s'
 
-theorem Quiet.refl (s : St) : Quiet s s := ⟨SameQ.refl s, InfK.refl s⟩
-theorem Quiet.trans {a b c : St} (h1 : Quiet a b) (h2 : Quiet b c) : Quiet a c := ⟨h1.q.trans h2.q, h1.k.trans h2.k⟩
+theorem Still.refl (s : St) : Still s s := ⟨SameQ.refl s, InfK.refl s⟩
+theorem Still.trans {a b c : St} (h1 : Still a b) (h2 : Still b c) : Still a c := ⟨h1.q.trans h2.q, h1.k.trans h2.k⟩
 
 /-! ## the two retransmission gathers -/
 
@@ -72,8 +73,8 @@ theorem scanLoop_K {B : Type} (s : St) (dec : Int → LoopAcc B → Chunk → Ta
     · exact Or.inl h
     · exact Or.inr ⟨c, hc, (hu c).1.symm, (hu c).2.symm⟩
 
-theorem gatherRtx_quiet (s : St) (orc : Oracle) :
-    Quiet s (gatherRtx s orc).1 ∧ ∀ e ∈ (gatherRtx s orc).2.1, ∃ c ∈ s.inflight, c.tsn = e.tsn ∧ Chunk.frag c = Chunk.frag e := by
+theorem gatherRtx_still (s : St) (orc : Oracle) :
+    Still s (gatherRtx s orc).1 ∧ ∀ e ∈ (gatherRtx s orc).2.1, ∃ c ∈ s.inflight, c.tsn = e.tsn ∧ Chunk.frag c = Chunk.frag e := by
   have hsplit := scanSplit_append s
   obtain ⟨h1, h2⟩ := scanLoop_K s (rtxDecide s orc.allow (rtx_awnd s.cwnd s.rwnd)) (rtxUpd s) (fun _ => ⟨rfl, rfl⟩) 0
     (scanSplit s).2 { b := orc.b, aband := s.abandonedMsgs }
@@ -89,11 +90,11 @@ theorem gatherRtx_quiet (s : St) (orc : Oracle) :
     · cases h
     · exact ⟨c, hsuf c hc, r⟩
 
-theorem gatherFast_quiet {B : Type} (s : St) (allow : B → Int → Bool × B) (b : B) :
-    Quiet s (gatherFast s allow b).1 ∧ ∀ e ∈ (gatherFast s allow b).2, ∃ c ∈ s.inflight, c.tsn = e.tsn ∧ Chunk.frag c = Chunk.frag e := by
+theorem gatherFast_still {B : Type} (s : St) (allow : B → Int → Bool × B) (b : B) :
+    Still s (gatherFast s allow b).1 ∧ ∀ e ∈ (gatherFast s allow b).2, ∃ c ∈ s.inflight, c.tsn = e.tsn ∧ Chunk.frag c = Chunk.frag e := by
   unfold gatherFast
   cases hf : s.willRetransmitFast with
-  | false => simp only [Bool.not_false, if_true]; exact ⟨Quiet.refl s, fun e he => by cases he⟩
+  | false => simp only [Bool.not_false, if_true]; exact ⟨Still.refl s, fun e he => by cases he⟩
   | true =>
     simp only [Bool.not_true, Bool.false_eq_true, if_false]
     let s0 : St := { s with willRetransmitFast := false }
@@ -194,8 +195,8 @@ theorem onCumAdvanced_q (s : St) (total : Int) : SameQ s (onCumAdvanced s total)
     · exact ⟨⟨rfl, rfl, rfl, rfl, rfl, fun _ => rfl⟩, rfl⟩
     · exact ⟨⟨rfl, rfl, rfl, rfl, rfl, fun _ => rfl⟩, rfl⟩
 
-theorem ackPhase_quiet {s : St} {cum : BitVec 32} {gaps : List (BitVec 16 × BitVec 16)} {r : St × BitVec 32 × Bool}
-    (h : ackPhase s cum gaps = some r) : Quiet s r.1 := by
+theorem ackPhase_still {s : St} {cum : BitVec 32} {gaps : List (BitVec 16 × BitVec 16)} {r : St × BitVec 32 × Bool}
+    (h : ackPhase s cum gaps = some r) : Still s r.1 := by
   unfold ackPhase at h
   split at h
   · cases h
@@ -238,21 +239,21 @@ theorem ackPhase_quiet {s : St} {cum : BitVec 32} {gaps : List (BitVec 16 × Bit
         obtain ⟨c, hc, r⟩ := hq x hx
         exact ⟨c, hsub c hc, r⟩
 
-theorem missLoop_quiet (htna : BitVec 32) (fuel : Nat) (s : St) (tsn maxTSN : BitVec 32) :
-    Quiet s (missLoop htna fuel s tsn maxTSN).1 := by
+theorem missLoop_still (htna : BitVec 32) (fuel : Nat) (s : St) (tsn maxTSN : BitVec 32) :
+    Still s (missLoop htna fuel s tsn maxTSN).1 := by
   induction fuel generalizing s tsn with
-  | zero => exact Quiet.refl s
+  | zero => exact Still.refl s
   | succ fuel ih =>
     simp only [missLoop]
     split
     · cases hg : Sender.get s.inflight tsn with
-      | none => exact Quiet.refl s
+      | none => exact Still.refl s
       | some oc =>
         obtain ⟨off, c⟩ := oc
         simp only
         have hc : c ∈ s.inflight := List.mem_of_getElem? (get_some hg)
         split
-        · refine Quiet.trans ?_ (ih _ _)
+        · refine Still.trans ?_ (ih _ _)
           have hk : InfK s { s with inflight := s.inflight.set off { c with missIndicator := c.missIndicator + 1 } } := by
             intro x hx
             simp only at hx
@@ -263,28 +264,28 @@ theorem missLoop_quiet (htna : BitVec 32) (fuel : Nat) (s : St) (tsn maxTSN : Bi
           · exact ⟨⟨rfl, rfl, rfl, rfl, rfl, fun _ => rfl⟩, hk⟩
           · exact ⟨⟨rfl, rfl, rfl, rfl, rfl, fun _ => rfl⟩, hk⟩
         · exact ih _ _
-    · exact Quiet.refl s
+    · exact Still.refl s
 
-theorem fastRetransCheck_quiet (s : St) (cum : BitVec 32) (gaps : List (BitVec 16 × BitVec 16)) (htna : BitVec 32) (adv : Bool) :
-    Quiet s (fastRetransCheck s cum gaps htna adv).1 := by
-  have h1 : Quiet s (frLoop s cum gaps htna adv).1 := by
+theorem fastRetransCheck_still (s : St) (cum : BitVec 32) (gaps : List (BitVec 16 × BitVec 16)) (htna : BitVec 32) (adv : Bool) :
+    Still s (fastRetransCheck s cum gaps htna adv).1 := by
+  have h1 : Still s (frLoop s cum gaps htna adv).1 := by
     unfold frLoop
     split
-    · exact missLoop_quiet _ _ _ _ _
-    · exact Quiet.refl s
-  have h2 : ∀ r : St × Bool, Quiet r.1 (frPost r adv).1 := by
+    · exact missLoop_still _ _ _ _ _
+    · exact Still.refl s
+  have h2 : ∀ r : St × Bool, Still r.1 (frPost r adv).1 := by
     intro r
     unfold frPost
     split
-    · exact Quiet.refl _
+    · exact Still.refl _
     · split
       · exact ⟨⟨rfl, rfl, rfl, rfl, rfl, fun _ => rfl⟩, InfK.of_eq rfl⟩
-      · exact Quiet.refl _
+      · exact Still.refl _
   unfold fastRetransCheck
   exact h1.trans (h2 _)
 
-theorem sameAcct_quiet {s s' : St} (h : SameAcct s s') (hm : s'.nextMsg = s.nextMsg) (he : s'.established = s.established)
-    (hk : InfK s s') : Quiet s s' :=
+theorem sameAcct_still {s s' : St} (h : SameAcct s s') (hm : s'.nextMsg = s.nextMsg) (he : s'.established = s.established)
+    (hk : InfK s s') : Still s s' :=
   ⟨⟨h.2.2.2.2.1, h.2.2.2.2.2.2.2.2.2.2.2.2.1, hm, h.2.2.2.2.2.2.1, he, fun si => by rw [h.2.2.2.2.2.1]⟩, hk⟩
 
 theorem advLoop_est (fuel : Nat) (s : St) : (advLoop fuel s).established = s.established := by
@@ -303,74 +304,74 @@ theorem advancePeerAck_est (s : St) : (advancePeerAck s).established = s.establi
   simp only
   split <;> exact advLoop_est _ _
 
-theorem advancePeerAck_quiet (s : St) : Quiet s (advancePeerAck s) :=
-  sameAcct_quiet (advancePeerAck_frame s).1 (advancePeerAck_nextMsg s) (advancePeerAck_est s) (InfK.of_eq (advancePeerAck_queues s).1)
+theorem advancePeerAck_still (s : St) : Still s (advancePeerAck s) :=
+  sameAcct_still (advancePeerAck_frame s).1 (advancePeerAck_nextMsg s) (advancePeerAck_est s) (InfK.of_eq (advancePeerAck_queues s).1)
 
-theorem prStep_quiet (s : St) : Quiet s (prStep s) := by
+theorem prStep_still (s : St) : Still s (prStep s) := by
   unfold prStep
   split
   · split
-    · refine Quiet.trans ?_ (advancePeerAck_quiet _)
+    · refine Still.trans ?_ (advancePeerAck_still _)
       exact ⟨⟨rfl, rfl, rfl, rfl, rfl, fun _ => rfl⟩, InfK.of_eq rfl⟩
-    · exact advancePeerAck_quiet _
-  · exact Quiet.refl s
+    · exact advancePeerAck_still _
+  · exact Still.refl s
 
-theorem applyMarks_quiet (s : St) (marks : List (BitVec 32)) : Quiet s (applyMarks s marks) := by
+theorem applyMarks_still (s : St) (marks : List (BitVec 32)) : Still s (applyMarks s marks) := by
   refine ⟨⟨rfl, rfl, rfl, rfl, rfl, fun _ => rfl⟩, ?_⟩
   refine InfK.of_map (fun c => if marks.contains c.tsn && !c.acked && !s.abandoned c then { c with retransmit := true } else c) ?_ rfl
   intro c
   split <;> exact ⟨rfl, rfl⟩
 
-theorem sack_quiet (s : St) (cum arwnd : BitVec 32) (gaps : List (BitVec 16 × BitVec 16)) (marks : List (BitVec 32)) :
-    Quiet s (sack s cum arwnd gaps marks).1 := by
+theorem sack_still (s : St) (cum arwnd : BitVec 32) (gaps : List (BitVec 16 × BitVec 16)) (marks : List (BitVec 32)) :
+    Still s (sack s cum arwnd gaps marks).1 := by
   unfold sack
   split
-  · exact Quiet.refl s
+  · exact Still.refl s
   · split
-    · exact Quiet.refl s
+    · exact Still.refl s
     · split
-      · exact Quiet.refl s
+      · exact Still.refl s
       · cases ha : ackPhase s cum gaps with
-        | none => exact Quiet.refl s
+        | none => exact Still.refl s
         | some r =>
           simp only
-          have h1 := ackPhase_quiet ha
-          have h2 : Quiet r.1 (setPeerWindow r.1 arwnd) := ⟨⟨rfl, rfl, rfl, rfl, rfl, fun _ => rfl⟩, InfK.of_eq rfl⟩
-          have h3 := fastRetransCheck_quiet (setPeerWindow r.1 arwnd) cum gaps r.2.1 r.2.2
+          have h1 := ackPhase_still ha
+          have h2 : Still r.1 (setPeerWindow r.1 arwnd) := ⟨⟨rfl, rfl, rfl, rfl, rfl, fun _ => rfl⟩, InfK.of_eq rfl⟩
+          have h3 := fastRetransCheck_still (setPeerWindow r.1 arwnd) cum gaps r.2.1 r.2.2
           have h123 := (h1.trans h2).trans h3
           split
           · exact h123
-          · exact h123.trans ((prStep_quiet _).trans (applyMarks_quiet _ marks))
+          · exact h123.trans ((prStep_still _).trans (applyMarks_still _ marks))
 
 /-! ## T3, clock -/
 
-theorem t3_quiet (s : St) : Quiet s (t3 s) := by
-  have hmark : ∀ x : St, Quiet x { x with inflight := markAllToRetransmit x } := by
+theorem t3_still (s : St) : Still s (t3 s) := by
+  have hmark : ∀ x : St, Still x { x with inflight := markAllToRetransmit x } := by
     intro x
     refine ⟨⟨rfl, rfl, rfl, rfl, rfl, fun _ => rfl⟩, ?_⟩
     refine InfK.of_map (fun c => if c.acked || x.abandoned c then c else { c with retransmit := true }) ?_ rfl
     intro c
     split <;> exact ⟨rfl, rfl⟩
-  have hpr : ∀ y : St, Quiet y (if y.cfg.prEnabled then advancePeerAck y else y) := by
+  have hpr : ∀ y : St, Still y (if y.cfg.prEnabled then advancePeerAck y else y) := by
     intro y
     split
-    · exact advancePeerAck_quiet y
-    · exact Quiet.refl y
+    · exact advancePeerAck_still y
+    · exact Still.refl y
   unfold t3
   simp only
-  refine Quiet.trans ?_ (Quiet.trans (hpr _) (hmark _))
+  refine Still.trans ?_ (Still.trans (hpr _) (hmark _))
   split
   · exact ⟨⟨rfl, rfl, rfl, rfl, rfl, fun _ => rfl⟩, InfK.of_eq rfl⟩
   · exact ⟨⟨rfl, rfl, rfl, rfl, rfl, fun _ => rfl⟩, InfK.of_eq rfl⟩
 
-theorem iter_t3_quiet (n : Nat) (s : St) : Quiet s (iter t3 n s) := by
+theorem iter_t3_still (n : Nat) (s : St) : Still s (iter t3 n s) := by
   induction n generalizing s with
-  | zero => exact Quiet.refl s
-  | succ n ih => exact (t3_quiet s).trans (ih (t3 s))
+  | zero => exact Still.refl s
+  | succ n ih => exact (t3_still s).trans (ih (t3 s))
 
-theorem tick_quiet (s : St) (ms n : Nat) (marks : List (BitVec 32)) :
-    Quiet s (applyMarks (iter t3 n { s with now := s.now + ms }) marks) := by
-  refine Quiet.trans ?_ ((iter_t3_quiet n _).trans (applyMarks_quiet _ marks))
+theorem tick_still (s : St) (ms n : Nat) (marks : List (BitVec 32)) :
+    Still s (applyMarks (iter t3 n { s with now := s.now + ms }) marks) := by
+  refine Still.trans ?_ ((iter_t3_still n _).trans (applyMarks_still _ marks))
   exact ⟨⟨rfl, rfl, rfl, rfl, rfl, fun _ => rfl⟩, InfK.of_eq rfl⟩
 
-end SenderProofs
+end SenderTsn
